@@ -45,13 +45,24 @@ def has_radial(cls):
     return AXES[cls][0] == "rad"
 
 
+_E = 2.0 ** -20
+# "E": nearly (not exactly) equispaced - relative deviations of 1e-6, all increments distinct
 _INCR = {"U": [1, 1, 1, 1, 1, 1, 1, 1], "G": [1, 2, 4, 8, 16, 32, 64, 128],
-         "I": [1, 3, 2, 5, 4, 7, 3, 6]}
+         "I": [1, 3, 2, 5, 4, 7, 3, 6],
+         "E": [1, 1 + 3 * _E, 1 + _E, 1 + 5 * _E, 1 + 2 * _E, 1 + 7 * _E, 1 + 4 * _E, 1 + 6 * _E]}
+
+
+def length(kind, N):
+    """Domain length used with the (N, L) constructor form (spacing template "L")."""
+    return {"lin": 0.25 * N, "rad": 0.25 * N, "azi": 2 * math.pi, "pol": math.pi}[kind]
 
 
 def faces(kind, N, sp, org=0):
     """Face positions of one axis.  All lengths are dyadic; angles are multiples of pi/16
-    or pi/20."""
+    or pi/20.  Template "L" stands for a mesh built with the (N, L) constructor form; its
+    face positions are the equispaced ones that form is documented to produce."""
+    if sp == "L":
+        return np.arange(N + 1) * (length(kind, N) / N)
     inc = np.array(_INCR[sp][:N], dtype=float)
     if N > 8:
         inc = np.resize(np.array(_INCR[sp], dtype=float), N)
@@ -64,15 +75,15 @@ def faces(kind, N, sp, org=0):
     if kind == "azi":
         if sp == "U":
             return np.arange(N + 1) * (2 * math.pi / N)
-        h = math.pi / 16 if sp == "I" else math.pi / 20
+        h = math.pi / 16 if sp in ("I", "E") else math.pi / 20
         if sp == "G":
             inc = np.array([1, 2, 4, 8][:N], dtype=float) if N <= 4 else np.ones(N)
         return math.pi / 8 + np.concatenate([[0.0], np.cumsum(inc)]) * h
     if kind == "pol":
         if sp == "U":
             return np.arange(N + 1) * (math.pi / N)
-        if sp == "I":
-            inc = np.array(_INCR["I"][:N], dtype=float)
+        if sp in ("I", "E"):
+            inc = np.array(_INCR[sp][:N], dtype=float)
             h = math.pi / 16 if N <= 4 else (0.75 * math.pi / inc.sum())
             return math.pi / 8 + np.concatenate([[0.0], np.cumsum(inc)]) * h
         inc = np.array([1, 2, 4, 8][:N], dtype=float) if N <= 4 else np.ones(N)
@@ -81,20 +92,34 @@ def faces(kind, N, sp, org=0):
     raise ValueError(kind)
 
 
-def spec(cls, shape, sp, org=0):
-    return {"cls": cls, "shape": list(shape), "sp": list(sp), "org": int(org)}
+def spec(cls, shape, sp, org=0, scale=0):
+    """`scale` = k rescales every length-like axis (lin, rad) by 2**k exactly (angles are
+    unchanged): the same grid expressed in another length unit (nanometres, kilometres)."""
+    s = {"cls": cls, "shape": list(shape), "sp": list(sp), "org": int(org)}
+    if scale:
+        s["scale"] = int(scale)
+    return s
 
 
 def spec_id(s):
-    return "%s[%s|%s|o%d]" % (s["cls"], "x".join(map(str, s["shape"])), "".join(s["sp"]), s["org"])
+    return "%s[%s|%s|o%d%s]" % (s["cls"], "x".join(map(str, s["shape"])), "".join(s["sp"]), s["org"],
+                                "|2^%d" % s["scale"] if s.get("scale") else "")
 
 
 def spec_faces(s):
     kinds = AXES[s["cls"]]
-    return [faces(k, n, sp, s["org"]) for k, n, sp in zip(kinds, s["shape"], s["sp"])]
+    k = 2.0 ** s.get("scale", 0)
+    return [faces(kd, n, sp, s["org"]) * (k if kd in ("lin", "rad") else 1.0)
+            for kd, n, sp in zip(kinds, s["shape"], s["sp"])]
 
 
 def make_mesh(s):
+    if s["sp"][0] == "L":   # (N, L) constructor form (all axes at once)
+        kinds = AXES[s["cls"]]
+        k2 = 2.0 ** s.get("scale", 0)
+        return getattr(pf, s["cls"])(*[int(n) for n in s["shape"]],
+                                     *[length(k, n) * (k2 if k in ("lin", "rad") else 1.0)
+                                       for k, n in zip(kinds, s["shape"])])
     return getattr(pf, s["cls"])(*spec_faces(s))
 
 
@@ -107,9 +132,21 @@ def shapes(d, tier, nmax=3):
     return list(itertools.product(range(1, nmax + 1), repeat=d))
 
 
-def grid_specs(tier="quick", classes=None, templates=None, nmax=None, shapes_override=None):
-    """All grid instances of the bound: class x shape x spacing per axis x radial origin."""
+# shapes beyond N<=3 that every operator-level check also visits (irregular spacing, both
+# radial origins): a fast path or an index slip keyed on "more than three cells" needs them
+LARGE_SHAPES = {1: [(4,), (5,), (6,)], 2: [(4, 2), (2, 5), (5, 4)], 3: [(4, 2, 1), (2, 1, 5)]}
+# grids expressed in very small / very large length units (exact power-of-two rescaling): an
+# absolute tolerance or threshold anywhere in the library (np.isclose/allclose defaults, eps
+# guards applied to dimensional quantities) shows only there
+SCALED_SHAPES = {1: [(3,)], 2: [(2, 3)], 3: [(2, 1, 3)]}
+SCALES = [-30, 40]
+
+
+def grid_specs(tier="quick", classes=None, templates=None, nmax=None, shapes_override=None, extras=True):
+    """All grid instances of the bound: class x shape x spacing per axis x radial origin,
+    plus (extras) every shape once through the (N, L) constructor form and the LARGE_SHAPES."""
     out = []
+    templates_given = bool(templates)
     templates = templates or (["U", "I"] if tier == "quick" else ["U", "G", "I"])
     for cls in (classes or CLASSES):
         d = dim(cls)
@@ -120,6 +157,21 @@ def grid_specs(tier="quick", classes=None, templates=None, nmax=None, shapes_ove
             for sp in itertools.product(templates, repeat=d):
                 for org in orgs:
                     out.append(spec(cls, shape, sp, org))
+        if extras and not shapes_override and not templates_given:
+            for shape in shp:
+                out.append(spec(cls, shape, ["L"] * d, 0))
+            for shape in LARGE_SHAPES[d]:
+                for org in orgs:
+                    out.append(spec(cls, shape, ["I"] * d, org))
+                out.append(spec(cls, shape, ["L"] * d, 0))
+            for shape in SCALED_SHAPES[d]:
+                for k in SCALES:
+                    for org in orgs:
+                        out.append(spec(cls, shape, ["I"] * d, org, k))
+                    out.append(spec(cls, shape, ["L"] * d, 0, k))
+            for shape in SCALED_SHAPES[d]:      # nearly equispaced faces
+                for org in orgs:
+                    out.append(spec(cls, shape, ["E"] * d, org))
     return out
 
 
